@@ -130,7 +130,7 @@ class World(object):
         nerr0 = len([1 for lv, _ in self.options.logger.lines if lv == 'error'])
         r = self._apply(op)
         nerr1 = len([1 for lv, _ in self.options.logger.lines if lv == 'error'])
-        ndisc = len([1 for e in r if e.startswith('EDiscard')])
+        ndisc = len([1 for e in r if e.startswith(('EDiscard', 'EWriteError'))])
         self.discard_log_mismatch = (nerr1 - nerr0) != ndisc
         return r
 
@@ -193,7 +193,8 @@ class World(object):
                     elif res == 'epipe':
                         world.effs.append('EEpipe %d %d' % (pi, i))
                     else:
-                        world.effs.append('ERaise')
+                        # OSError other than EPIPE/EAGAIN: caught and logged by dispatch()
+                        world.effs.append('EWriteError %d' % pi)
         group._dispatchEvent = wrapped
         try:
             if kind == 'dispatch':
